@@ -50,25 +50,32 @@ def uid_range(name, n_agents):
 
 
 def pools_groups(n):
-    """ the (key, low, high, do_cache) rows of a `pools` route """
+    """ the (key, low, high, do_cache) rows of a `pools` route whose groups are age bands """
     if n.get('groups'):
         return [list(g) for g in n['groups']]
     a = n.get('split', 15)
     return [['young', 0, a, None], ['old', a, None, None]]
 
 
-def mk_pools(n):
+def pools_sides(n):
+    """ ([(key, spec)] of the source groups, [(key, spec)] of the destination groups) of a `pools` route.  Round 5: the groups
+        of the plural container can be ANY selector a single pool accepts (explicit uid list, callable, None, AgeGroup), given
+        as `src_groups` / `dst_groups` = [[key, spec], ...]; otherwise both sides are the age bands of `groups` / `split`. """
+    if n.get('src_groups') or n.get('dst_groups'):
+        return [(k, sp) for k, sp in n['src_groups']], [(k, sp) for k, sp in n['dst_groups']]
+    rows = [(r[0], dict(age=[r[1], r[2]], do_cache=r[3], ref=r[0] if n.get('share') else None)) for r in pools_groups(n)]
+    return rows, rows
+
+
+def mk_pools(n, groups_callable=None):
     import starsim as ss
-    rows = pools_groups(n)
-    def side(tag, shared):
-        out = {}
-        for key, lo, hi, dc in rows:
-            out[key] = mk_group(dict(age=[lo, hi], do_cache=dc, ref=key if n.get('share') else None), None, shared, None)
-        return out
+    ssrc, sdst = pools_sides(n)
     shared = {}
-    src = side('src', shared)
-    dst = side('dst', shared)      # with share=True the very same AgeGroup objects serve as sources and destinations
-    return ss.MixingPools(beta=n['beta'], src=src, dst=dst, contacts=n['contacts'])
+    na = n.get('n_agents')
+    src = {k: mk_group(sp, na, shared, groups_callable) for k, sp in ssrc}
+    dst = {k: mk_group(sp, na, shared, groups_callable) for k, sp in sdst}    # with share=True the very same AgeGroup objects serve as sources and destinations
+    kw = dict(diseases=n['diseases']) if n.get('diseases') else {}
+    return ss.MixingPools(beta=n['beta'], src=src, dst=dst, contacts=n['contacts'], **kw)
 
 
 def route_specs(n, route):
@@ -77,15 +84,17 @@ def route_specs(n, route):
     if t == 'pool':
         return [(route, n['src'], n['dst'], n.get('n_agents'))]
     if t == 'pools':
-        rows = {r[0]: dict(age=[r[1], r[2]], do_cache=r[3]) for r in pools_groups(n)}
+        ssrc, sdst = pools_sides(n)
+        strip = lambda sp: ({k: v for k, v in sp.items() if k != 'ref'} if is_age(sp) else sp)
+        ssrc = {k: strip(sp) for k, sp in ssrc}; sdst = {k: strip(sp) for k, sp in sdst}
         out = []
         for mp in route.pools:
             nm = str(mp.name)
             if not nm.startswith('pool:') or '->' not in nm:
                 continue
             sk, dk = nm[len('pool:'):].split('->', 1)
-            if sk in rows and dk in rows:
-                out.append((mp, rows[sk], rows[dk], None))
+            if sk in ssrc and dk in sdst:
+                out.append((mp, ssrc[sk], sdst[dk], n.get('n_agents')))
         return out
     return []
 
